@@ -1,0 +1,10 @@
+//go:build verif
+
+package filters
+
+import "time"
+
+// VerifSetFilterDeadline sets the inactivity deadline of polling filters.
+// Verification harness only (build tag verif): lets the expiry of an idle filter be observed within a test run.
+// Must be called before NewPublicAPI.
+func VerifSetFilterDeadline(d time.Duration) { deadline = d }
